@@ -38,9 +38,54 @@ def load_schema(an: Analysis) -> Tuple[dict, dict]:
     if not isinstance(defs_node, ast.Dict):
         raise AnalysisError("JSON_SCHEMA['definitions'] is not a dict display")
     defs = literal_with_holes(defs_node)
+    _apply_module_level_edits(an, m, defs)
     root = literal_with_holes(top)
     root["definitions"] = defs
     return root, defs
+
+
+def _apply_module_level_edits(an: Analysis, m, defs: dict):
+    """
+    The schema is a literal; later module-level statements that edit it (e.g. a loop closing every object definition) are applied
+    to the parsed literal when they are in the small language {for x in D.values()/items(): [if <test>:] x[<const>] = <const>}, else refused.
+    """
+    from sa.feval import FevalError, feval
+    names = {n for n, exprs in m.assigns.items() if any(isinstance(e, ast.Dict) for e in exprs) and n in ("_definitions", "JSON_SCHEMA")}
+    for st in m.tree.body:
+        if isinstance(st, (ast.Assign, ast.AnnAssign, ast.ImportFrom, ast.Import, ast.ClassDef, ast.FunctionDef, ast.Delete)):
+            if isinstance(st, ast.Assign) and any(isinstance(t, ast.Subscript) and isinstance(t.value, ast.Name) and t.value.id in names for t in st.targets):
+                raise AnalysisError(f"code_data/__init__.py:{st.lineno}: the schema literal is modified by an assignment the analyser does not interpret")
+            continue
+        touches = any(isinstance(x, ast.Name) and x.id in names for x in ast.walk(st))
+        if not touches:
+            continue
+        if isinstance(st, ast.For) and isinstance(st.iter, ast.Call) and isinstance(st.iter.func, ast.Attribute) and st.iter.func.attr in ("values", "items") \
+                and isinstance(st.iter.func.value, ast.Name) and st.iter.func.value.id == "_definitions":
+            var = st.target.id if isinstance(st.target, ast.Name) else (st.target.elts[1].id if isinstance(st.target, ast.Tuple) and len(st.target.elts) == 2 else None)
+            if var is None:
+                raise AnalysisError(f"code_data/__init__.py:{st.lineno}: loop over the schema definitions not understood")
+            for d in defs.values():
+                if not isinstance(d, dict):
+                    continue
+
+                def run(stmts):
+                    for b in stmts:
+                        if isinstance(b, ast.If):
+                            try:
+                                tv = feval(b.test, {var: d})
+                            except FevalError as ex:
+                                raise AnalysisError(f"code_data/__init__.py:{b.lineno}: schema edit condition not evaluable: {ex}")
+                            run(b.body if tv else b.orelse)
+                        elif isinstance(b, ast.Assign) and isinstance(b.targets[0], ast.Subscript) and isinstance(b.targets[0].value, ast.Name) and b.targets[0].value.id == var \
+                                and isinstance(b.targets[0].slice, ast.Constant):
+                            d[b.targets[0].slice.value] = literal_with_holes(b.value)
+                        elif isinstance(b, (ast.Pass, ast.Expr)):
+                            continue
+                        else:
+                            raise AnalysisError(f"code_data/__init__.py:{b.lineno}: schema edit statement not understood")
+                run(st.body)
+        else:
+            raise AnalysisError(f"code_data/__init__.py:{st.lineno}: module-level statement modifies the schema in a way the analyser does not interpret")
 
 
 def deref(defs: dict, node: dict, depth=0) -> dict:
